@@ -73,16 +73,33 @@ def scenarios(rep, tier, seed):
 
 def run_all(rep, scns, tag):
     traces = []
+    episodes = []
     for scn in scns:
         rec, why = K.run_scenario(scn)
         if rec is None:
             K.handle_skip(rep, scn, why, PIDS)
             continue
+        if scn["kind"] == "knn":
+            for et in K.episode_traces(scn, rec):
+                episodes.append((scn, {"trace": et}))
         tr = ks_trace(scn, rec)
         if tr is None:
             rep.skip("criterion_value_nan_or_inf")
             continue
         traces.append((scn, tr))
+    if episodes:
+        # each candidate k must have been scored with ITS OWN neighbourhood size: the validation predictions behind its accuracy
+        # are judged with C14's rule for k = the candidate's k on the forest of that candidate
+        sub = H.Report("C14", rep.tier, rep.seed, "model_checking")
+        K.judge(sub, episodes, "c16ep-" + tag, ("C14",), detail_fn=lambda s_, r_, c_: "knn")
+        for r in sub.cov["tlc_runs"]:
+            rep.cov["tlc_runs"].append(r)
+            rep.cov["states"] += r["distinct_states"]
+            rep.cov["transitions"] += r["states_generated"]
+        rep.count("candidate_scoring_episodes_judged", len(episodes))
+        rep.count("traces_validated_against_impl", len(episodes))
+        for v in sub.violations:
+            rep.violation(v["site"], "candidate_k_not_scored_with_its_own_neighbourhood_size", "knn", v["replay"])
     if not traces:
         return
     path = H.write_json(os.path.join(H.subdir("c16"), "ks-%s.json" % tag), [t for _, t in traces])
